@@ -577,7 +577,15 @@ func checkResultRule(c *an.Ctx, p *an.Prog, check *ssa.Function, rule string, ne
 	res := an.EnumPathsTo(check, hdr, nil, hdr, func(s *an.PathState) {
 		c.Stats["cfg_paths_enumerated"]++
 		in := s.PhiIn(phi)
-		if in == nil || !in.IsConst("nil") {
+		if in == nil {
+			return
+		}
+		if !in.IsConst("nil") {
+			// the only other admissible value is "unchanged" (the loop-carried value itself): anything else could
+			// turn an already accepted store back into a rejected one, depending on the directory's iteration order
+			if in.K != s.T(phi).K {
+				bad = append(bad, fmt.Sprintf("iteration path %s overwrites the check's result with %s: a supported admin seen earlier would be forgotten (verdict depends on readdir order)", s.BlockPath(), in.K))
+			}
 			return
 		}
 		nset++
